@@ -329,10 +329,13 @@ def contagion_case(ctx, rng, idx):
     labels = list(history.UNIVERSES[uni])
     rng.shuffle(labels)
     labels = labels[: rng.randint(2, 8)]
-    h = hgx.Hypergraph()
+    wtd = rng.random() < 0.35  # a weighted population: who is linked to whom decides the dynamics, the weights (0, fractions, 7) do not
+    h = hgx.Hypergraph(weighted=wtd)
     for _ in range(rng.randint(1, 10)):
         s = min(rng.choice([1, 2, 2, 2, 3, 3, 3, 4]), len(labels))
-        h.add_edge(tuple(rng.sample(labels, s)))
+        h.add_edge(tuple(rng.sample(labels, s)), weight=rng.choice([0, 0.25, 0.5, 1, 7]) if wtd else None)
+    if wtd:
+        ctx.event("contagion-on-a-weighted-hypergraph")
     for n in labels:
         if rng.random() < 0.4:
             h.add_node(n)
